@@ -606,6 +606,9 @@ class Body:
                     src = rv["place"]["local"]
                 elif rv["k"] == "use" and rv["op"]["k"] in ("move", "copy") and not rv["op"]["place"]["proj"]:
                     src = rv["op"]["place"]["local"]
+                elif rv["k"] == "cast" and str(rv.get("kind", "")).startswith("PointerCoercion") and rv["op"]["k"] in ("move", "copy") \
+                        and not rv["op"]["place"]["proj"]:
+                    src = rv["op"]["place"]["local"]          # `&mut [u8; N]` unsized to `&mut [u8]` still denotes the array
                 if src is not None and src in mutref and self.locals[tgt]["tyj"].get("k") == "ref" and self.locals[tgt]["tyj"].get("mut"):
                     mutref[tgt] = mutref[src]
                     changed = True
@@ -1819,6 +1822,154 @@ def desugar_closures(crate, bj, inlinable, depth=0):
     return out
 
 
+def sroa_tuples(bj):
+    """Scalar replacement of a tuple that only carries values across a (now inlined) call boundary: a local defined once as
+    `t = (a, b, ..)` from plain places, never borrowed or used whole, whose every use is a field read `t.i`, is eliminated by
+    reading the i-th operand instead — provided that operand cannot change between the construction and the read.  After this
+    `let (counts, matched) = helper(..)` with the helper inlined is the same as computing `counts` and `matched` in place."""
+    blocks = bj["blocks"]
+    n = len(blocks)
+    # candidate tuple locals
+    agg = {}
+    ndefs = {}
+    for bi, blk in enumerate(blocks):
+        if blk["cleanup"]:
+            continue
+        for si, st in enumerate(blk["stmts"]):
+            if st["k"] == "assign" and not st["lhs"]["proj"]:
+                l = st["lhs"]["local"]
+                ndefs[l] = ndefs.get(l, 0) + 1
+                rv = st["rv"]
+                if rv["k"] == "aggregate" and rv.get("akind") == "tuple" and rv["ops"] and \
+                        all(o["k"] in ("copy", "move") for o in rv["ops"]):
+                    agg[l] = (bi, si, rv["ops"])
+        t = blk["term"]
+        if t["k"] == "call" and t.get("dest") is not None and not t["dest"]["proj"]:
+            ndefs[t["dest"]["local"]] = ndefs.get(t["dest"]["local"], 0) + 1
+    cands = {l: v for l, v in agg.items() if ndefs.get(l) == 1 and l != 0 and l > bj["arg_count"]}
+    if not cands:
+        return bj
+    # every occurrence of the local must be `t.<field i>...` in a read position
+    uses = {l: [] for l in cands}
+    bad = set()
+
+    def scan(x, where):
+        for pl in _places(x, []):
+            l = pl.get("local")
+            if l in cands:
+                if "proj" not in pl:                       # an index projection using the tuple as index: impossible, be safe
+                    bad.add(l)
+                elif not pl["proj"] or pl["proj"][0]["k"] != "field":
+                    bad.add(l)
+                else:
+                    uses[l].append(where)
+    for bi, blk in enumerate(blocks):
+        if blk["cleanup"]:
+            continue
+        for si, st in enumerate(blk["stmts"]):
+            if st["k"] == "assign":
+                if not st["lhs"]["proj"] and st["lhs"]["local"] in cands:
+                    pass                                    # the defining aggregate
+                else:
+                    if st["lhs"]["local"] in cands:
+                        bad.add(st["lhs"]["local"])
+                rv = st["rv"]
+                if rv["k"] in ("ref", "rawptr") and rv["place"]["local"] in cands:
+                    bad.add(rv["place"]["local"])
+                scan(rv, (bi, si))
+            elif st["k"] == "setdiscr":
+                if st["lhs"]["local"] in cands:
+                    bad.add(st["lhs"]["local"])
+        t = blk["term"]
+        scan({k: v for k, v in t.items() if k != "dest"}, (bi, len(blk["stmts"])))
+        if t.get("dest") is not None and t["dest"]["local"] in cands:
+            bad.add(t["dest"]["local"])
+    succ = [[] for _ in range(n)]
+    for bi, blk in enumerate(blocks):
+        if blk["cleanup"]:
+            continue
+        t = blk["term"]
+        k = t["k"]
+        if k == "goto":
+            succ[bi] = [t["target"]]
+        elif k == "switch":
+            succ[bi] = sorted({b for _, b in t["targets"]} | {t["otherwise"]})
+        elif t.get("target") is not None:
+            succ[bi] = [t["target"]]
+
+    def reach_from(starts, avoid):
+        seen = set()
+        work = [x for x in starts]
+        while work:
+            x = work.pop()
+            if x in seen or x == avoid:
+                continue
+            seen.add(x)
+            work.extend(succ[x])
+        return seen
+    # definitions of every local (block, position)
+    defs_of = {}
+    for bi, blk in enumerate(blocks):
+        if blk["cleanup"]:
+            continue
+        for si, st in enumerate(blk["stmts"]):
+            if st["k"] in ("assign", "setdiscr"):
+                defs_of.setdefault(st["lhs"]["local"], []).append((bi, si))
+            if st["k"] == "assign" and st["rv"]["k"] in ("ref", "rawptr") and st["rv"].get("mut", True):
+                defs_of.setdefault(st["rv"]["place"]["local"], []).append((bi, si))      # may be written through the borrow
+        t = blk["term"]
+        if t["k"] == "call" and t.get("dest") is not None:
+            defs_of.setdefault(t["dest"]["local"], []).append((bi, len(blk["stmts"])))
+    subst = {}
+    for l, (abi, asi, ops) in cands.items():
+        if l in bad or not uses[l]:
+            continue
+        ok = True
+        after = reach_from(succ[abi], abi)
+        for o in ops:
+            ol = o["place"]["local"]
+            for (dbi, dsi) in defs_of.get(ol, []):
+                if dbi == abi:
+                    if dsi > asi:
+                        ok = False
+                elif dbi in after:
+                    # a later write of the operand that can still reach a use without rebuilding the tuple
+                    fwd = reach_from([dbi], abi)
+                    if any(ubi in fwd for ubi, _ in uses[l]):
+                        ok = False
+        if ok:
+            subst[l] = ops
+    if not subst:
+        return bj
+
+    def rw(pl):
+        l = pl["local"]
+        if l in subst and pl["proj"] and pl["proj"][0]["k"] == "field":
+            i = pl["proj"][0]["idx"]
+            if i < len(subst[l]):
+                base = subst[l][i]["place"]
+                return {"local": base["local"], "proj": list(base["proj"]) + list(pl["proj"][1:]), "ty": pl.get("ty")}
+        return pl
+    newblocks = []
+    for bi, blk in enumerate(blocks):
+        if blk["cleanup"]:
+            newblocks.append(blk)
+            continue
+        nb = dict(blk)
+        sts = []
+        for si, st in enumerate(blk["stmts"]):
+            if st["k"] == "assign" and not st["lhs"]["proj"] and st["lhs"]["local"] in subst:
+                continue                                     # the tuple itself is gone
+            sts.append(_map_places(st, rw) if st["k"] in ("assign", "setdiscr") else st)
+        nb["stmts"] = sts
+        nb["term"] = _map_places(blk["term"], rw)
+        newblocks.append(nb)
+    out = dict(bj)
+    out["blocks"] = newblocks
+    out["sroa"] = True
+    return out
+
+
 def normalise_crate(crate, anchors):
     """replace every body by its normal form; non-anchor crate-local functions that were spliced into all their callers are
     removed from crate.bodies (kept in crate.helper_bodies)"""
@@ -1829,7 +1980,7 @@ def normalise_crate(crate, anchors):
         if j["kind"] == "Promoted":
             newj[p] = j
         else:
-            newj[p] = ssa_split(desugar_closures(crate, inline_body(crate, j, inlinable), inlinable))
+            newj[p] = ssa_split(sroa_tuples(desugar_closures(crate, inline_body(crate, j, inlinable), inlinable)))
     crate.helper_bodies = {}
     crate.bodies = {}
     for p, j in newj.items():
